@@ -448,6 +448,8 @@ func (d *Data) sendBlocksSpecific(ctx *datastore.VersionedCtx, w http.ResponseWr
 	for i := 0; i < len(coordarray); i += 3 {
 		var bcoord dvid.ChunkPoint3d
 		if bcoord, err = strArrayToBCoord(coordarray[i : i+3]); err != nil {
+			wg.Wait() // nothing may write to w once we return
+			close(ch)
 			return
 		}
 		if i == 0 {
@@ -464,6 +466,8 @@ func (d *Data) sendBlocksSpecific(ctx *datastore.VersionedCtx, w http.ResponseWr
 
 		if err != nil {
 			ch <- blockSend{err: err}
+			wg.Wait() // nothing may write to w once we return
+			close(ch)
 			return
 		}
 
@@ -531,6 +535,7 @@ func (d *Data) sendBlocksVolume(ctx *datastore.VersionedCtx, w http.ResponseWrit
 
 	store, err := datastore.GetOrderedKeyValueDB(d)
 	if err != nil {
+		close(ch)
 		return fmt.Errorf("Data type labelmap had error initializing store: %v", err)
 	}
 
@@ -587,6 +592,10 @@ func (d *Data) sendBlocksVolume(ctx *datastore.VersionedCtx, w http.ResponseWrit
 			})
 
 			if err != nil {
+				// blocks already handed to the transcoders are still being sent: wait for them and stop
+				// the sender, since nothing may write to w once we return and the caller reports the error.
+				wg.Wait()
+				close(ch)
 				return fmt.Errorf("unable to GET data %s: %v", ctx, err)
 			}
 		}
